@@ -60,11 +60,20 @@ theorem Emits.mkText (wd : String → Nat) (t : Tag) (s : String) :
   · cases h
     simp [rigid, nb]
 
-theorem Emits.tok (e : Env) (s : String) : Emits (e.tok s) (nb s) := by simpa [Tag.rigid, Env.tok] using Emits.mkText e.wd .tok s
-theorem Emits.syn (e : Env) (s : String) : Emits (e.syn s) (nb s) := by simpa [Tag.rigid, Env.syn] using Emits.mkText e.wd .syn s
-theorem Emits.verb (e : Env) (s : String) : Emits (e.verb s) (nb s) := by simpa [Tag.rigid, Env.verb] using Emits.mkText e.wd .verbatim s
-theorem Emits.soft (e : Env) (s : String) : Soft (e.soft s) := by simpa [Tag.rigid, Env.soft] using Emits.mkText e.wd .soft s
 theorem Emits.cmt (e : Env) (s : String) : Soft (e.cmt s) := by simpa [Tag.rigid, Env.cmt] using Emits.mkText e.wd .comment s
+
+/-- Token text of a member of the printer's document family, at every unit. -/
+def TEmits (d : Twin.Doc) (s : List Char) : Prop := ∀ u, Emits (d.fam u) s
+abbrev TSoft (d : Twin.Doc) : Prop := TEmits d []
+
+theorem TEmits.tok (e : Env) (s : String) : TEmits (e.tok s) (nb s) := by
+  intro u; simpa [Tag.rigid, Env.tok] using Emits.mkText e.wd .tok s
+theorem TEmits.syn (e : Env) (s : String) : TEmits (e.syn s) (nb s) := by
+  intro u; simpa [Tag.rigid, Env.syn] using Emits.mkText e.wd .syn s
+theorem TEmits.verb (e : Env) (s : String) : TEmits (e.verb s) (nb s) := by
+  intro u; simpa [Tag.rigid, Env.verb] using Emits.mkText e.wd .verbatim s
+theorem TEmits.soft (e : Env) (s : String) : TSoft (e.soft s) := by
+  intro u; simpa [Tag.rigid, Env.soft] using Emits.mkText e.wd .soft s
 
 theorem Emits.space : Soft space := by
   intro m xs h; cases h; simp [rigid, Tag.rigid]
@@ -150,7 +159,7 @@ theorem foldl_alignSimpleStep_soft (e : Env) :
   | cons l ls ih => intro acc h; exact ih _ (alignSimpleStep_soft e acc l h)
 
 /-- A converted comment carries no token text (comments are accounted for separately, C06). -/
-theorem convComment_soft (e : Env) (n : ANode) : Post (convComment e n) Soft := by
+theorem convComment_soft (e : Env) (n : ANode) : Post (convComment e n) (fun c => Soft c.d) := by
   unfold convComment
   split
   · exact Post.pure (Emits.cmt e _)
@@ -162,28 +171,44 @@ theorem convComment_soft (e : Env) (n : ANode) : Post (convComment e n) Soft := 
         · refine Post.pure ?_
           unfold alignMultilineSimple Doc.hang
           exact Emits.alignD (Emits.nst (foldl_alignSimpleStep_soft e _ _ Emits.nil))
-        · unfold alignMultiline
+        · refine Post.bind (Q := Soft) ?_ (fun d hd => Post.pure (Emits.alignD hd))
+          unfold alignMultiline
           split
           · exact Post.rejected _
-          · exact Post.pure (Emits.alignD (foldl_alignStep_soft e _ _ _ Emits.nil))
+          · exact Post.pure (foldl_alignStep_soft e _ _ _ Emits.nil)
     · exact Post.rejected _
 
+theorem convCommentT_soft (e : Env) (n : ANode) : Post (convCommentT e n) TSoft := by
+  unfold convCommentT
+  exact Post.bind (convComment_soft e n) (fun c hc => Post.pure (fun _ => hc))
+
+/-! ### lifted to the document family -/
+theorem TEmits.app {a b sa sb} (ha : TEmits a sa) (hb : TEmits b sb) : TEmits (a ++ b) (sa ++ sb) :=
+  fun u => by simpa using Emits.app (ha u) (hb u)
+theorem TEmits.nil : TEmits .nil [] := fun _ => Emits.nil
+theorem TEmits.hardline : TEmits Twin.hardline [] := fun _ => Emits.hardline
+theorem TEmits.space : TSoft Twin.space := fun _ => Emits.space
+theorem TEmits.grp {d s} (h : TEmits d s) : TEmits d.grp s := fun u => by simpa using Emits.grp (h u)
+theorem TEmits.nstTab {d s} (h : TEmits d s) : TEmits d.nstTab s := fun u => by simpa using Emits.nst (h u)
+theorem TEmits.falt {b f s} (hb : TEmits b s) (hf : TEmits f s) : TEmits (Twin.Doc.falt b f) s :=
+  fun u => by simpa using Emits.falt (hb u) (hf u)
+
 /-! ### flow stylist -/
-theorem Flow.push_emits {f : Flow} {d s t before after} (hf : Emits f.doc s) (hd : Emits d t) :
-    Emits (f.push d before after).doc (s ++ t) := by
+theorem Flow.push_emits {f : Flow} {d s t before after} (hf : TEmits f.doc s) (hd : TEmits d t) :
+    TEmits (f.push d before after).doc (s ++ t) := by
   unfold Flow.push
   simp only
   split
-  · simpa using (hf.app Emits.space).app hd
+  · simpa using (hf.app TEmits.space).app hd
   · exact hf.app hd
 
-theorem Flow.pushComment_emits {f : Flow} {d s isBlock} (hf : Emits f.doc s) (hd : Soft d) :
-    Emits (f.pushComment d isBlock).doc s := by
+theorem Flow.pushComment_emits {f : Flow} {d s isBlock} (hf : TEmits f.doc s) (hd : TSoft d) :
+    TEmits (f.pushComment d isBlock).doc s := by
   unfold Flow.pushComment
   split
   · simpa using Flow.push_emits hf hd
   · split
-    · have : Emits ({ f with spaceAfter := true } : Flow).doc s := hf
+    · have : TEmits ({ f with spaceAfter := true } : Flow).doc s := hf
       simpa using Flow.push_emits this hd
     · simpa using Flow.push_emits hf hd
 
@@ -199,29 +224,29 @@ def flowContrib (sem : ANode → List Char) (c : ANode) : List Char :=
 def ProducerOK {σ} (producer : σ → Ctx → ANode → M (σ × Option FlowItem)) (sem : ANode → List Char) : Prop :=
   ∀ st c child, Post (producer st c child) fun r =>
     match r.2 with
-    | some it => Emits it.doc (sem child)
+    | some it => TEmits it.doc (sem child)
     | none => sem child = []
 
 theorem flowStepM_emits {σ} {e : Env} {ctx : Ctx} {producer : σ → Ctx → ANode → M (σ × Option FlowItem)} {sem}
     (hp : ProducerOK producer sem) (hsp : ∀ c : ANode, c.kind = .space → sem c = [])
-    (acc : FSt σ) (s : List Char) (c : ANode) (h : Emits acc.flow.doc s) :
-    Post (flowStepM e ctx producer acc c) (fun acc' => Emits acc'.flow.doc (s ++ flowContrib sem c)) := by
+    (acc : FSt σ) (s : List Char) (c : ANode) (h : TEmits acc.flow.doc s) :
+    Post (flowStepM e ctx producer acc c) (fun acc' => TEmits acc'.flow.doc (s ++ flowContrib sem c)) := by
   unfold flowStepM flowContrib
   simp only
   split
-  · exact Post.pure (Flow.push_emits h (Emits.tok e _))
+  · exact Post.pure (Flow.push_emits h (TEmits.tok e _))
   · split
-    · exact Post.bind (convComment_soft e c) (fun d hd => Post.pure (by simpa using Flow.pushComment_emits h hd))
+    · exact Post.bind (convCommentT_soft e c) (fun d hd => Post.pure (by simpa using Flow.pushComment_emits h hd))
     · split
       · rename_i hk
         have hks : c.kind = .space := by
           simp only [Bool.and_eq_true, beq_iff_eq] at hk; exact hk.1.2
         have h3 : (c.kind == Kind.hash) = false := by simp [hks]
         simp only [h3, Bool.false_eq_true, if_false, hsp c hks]
-        exact Post.pure (by simpa using Flow.push_emits h Emits.hardline)
+        exact Post.pure (by simpa using Flow.push_emits h TEmits.hardline)
       · split
         · split
-          · exact Post.pure (by simpa using Flow.push_emits h (Emits.syn e "#"))
+          · exact Post.pure (by simpa using Flow.push_emits h (TEmits.syn e "#"))
           · exact Post.rejected _
         · refine Post.bind (hp _ _ _) (fun r hr => ?_)
           split
@@ -235,12 +260,12 @@ theorem flowStepM_emits {σ} {e : Env} {ctx : Ctx} {producer : σ → Ctx → AN
 theorem flowM_emits {σ} {e : Env} {ctx : Ctx} {producer : σ → Ctx → ANode → M (σ × Option FlowItem)} {sem}
     (hp : ProducerOK producer sem) (hsp : ∀ c : ANode, c.kind = .space → sem c = [])
     (children : List ANode) (st : σ) :
-    Post (flowM e ctx children st producer) (fun d => Emits d (children.flatMap (flowContrib sem))) := by
+    Post (flowM e ctx children st producer) (fun d => TEmits d (children.flatMap (flowContrib sem))) := by
   unfold flowM
-  refine Post.bind (Q := fun acc => Emits acc.flow.doc (children.flatMap (flowContrib sem))) ?_ (fun acc hacc => Post.pure hacc)
+  refine Post.bind (Q := fun acc => TEmits acc.flow.doc (children.flatMap (flowContrib sem))) ?_ (fun acc hacc => Post.pure hacc)
   have := Post.foldlM_idx (step := flowStepM e ctx producer)
-    (Inv := fun pre (acc : FSt σ) => Emits acc.flow.doc (pre.flatMap (flowContrib sem)))
-    children [] ({ st := st } : FSt σ) (by simpa using Emits.nil)
+    (Inv := fun pre (acc : FSt σ) => TEmits acc.flow.doc (pre.flatMap (flowContrib sem)))
+    children [] ({ st := st } : FSt σ) (by simpa using TEmits.nil)
     (fun pre acc x hinv => by
       have := flowStepM_emits (e := e) (ctx := ctx) hp hsp acc _ x hinv
       simpa [List.flatMap_append] using this)
